@@ -280,6 +280,54 @@ theorem C04_method_body_untouched (hl : List Str) (repl : Str → Str) (u : Upst
   · have : (r.contentLength == 0) = false := by simp [h0]
     simp [this]
 
+/-- net/http hands a handler a body that is exactly as long as the declared Content-Length. -/
+def BodyFramed (r : Request) : Prop := r.contentLength ≥ 0 → ((bodyBytes r.body).length : Int) = r.contentLength
+
+/-- Whether the body is buffered for retries (`requiresBuffering`) or streamed makes no difference to
+what the transport is handed, and either is what `forward` hands it. -/
+theorem C04_buffering_transparent (hl : List Str) (repl : Str → Str) (u : Upstream) (r : Request) (b : Bool) :
+    outgoingBody b r = (forward hl repl u r).body := by
+  rw [forward_body]
+  unfold outgoingBody
+  cases b <;> cases r.body <;> simp
+
+/-- The backend receives exactly the client's body bytes in a framing that is consistent with them:
+a Content-Length equal to their number, or chunked coding (exactly when the client's length was
+unknown), or no body when there are none — for every incoming framing (declared length, unknown length, no body). -/
+theorem C04_framing_self_consistent (hl : List Str) (repl : Str → Str) (u : Upstream) (r : Request)
+    (hf : BodyFramed r) :
+    bodyBytes (forward hl repl u r).body = bodyBytes r.body ∧
+    (match wireFraming (forward hl repl u r) with
+     | .length n => n = (bodyBytes r.body).length
+     | .chunked => r.contentLength < 0
+     | .none => bodyBytes r.body = []) := by
+  have hb : BodyConsistent r := by
+    intro h0
+    have := hf (by omega)
+    rw [h0] at this
+    exact List.eq_nil_of_length_eq_zero (by omega)
+  refine ⟨(C04_method_body_untouched hl repl u r hb).2.2, ?_⟩
+  unfold wireFraming
+  rw [forward_body, forward_contentLength]
+  by_cases h0 : r.contentLength = 0
+  · simp only [h0, beq_self_eq_true, if_true]
+    exact hb h0
+  · have hne : (r.contentLength == 0) = false := by simp [h0]
+    simp only [hne, Bool.false_eq_true, if_false]
+    cases hbody : r.body with
+    | none =>
+      simp only [bodyBytes]
+    | some bs =>
+      simp only [bodyBytes]
+      by_cases hpos : r.contentLength > 0
+      · simp only [hpos, if_true]
+        have := hf (by omega)
+        rw [hbody] at this
+        simp only [bodyBytes] at this
+        omega
+      · have hneg : r.contentLength < 0 := by omega
+        simp only [hpos, if_false, hneg, if_true]
+
 /-- The whole judged request-side predicate: the model's answer always gets the verdict "ok".
 (The same `verdictReq` is applied by the driver to the implementation's answers.) -/
 theorem C04_request_model_verdict_ok (hl : List Str) (hc : CanonicalNames hl) (repl : Str → Str) (u : Upstream)
